@@ -44,12 +44,13 @@ Theorem C10_sel_band : forall nd prev next bmin bmax maxl gain pt ext nf lib s r
 Proof. exact sel_band. Qed.
 Print Assumptions C10_sel_band.
 
-(* Raman models only after a fibre all of whose loss coefficients are below the configured limit *)
+(* Raman models only after a fibre all of whose loss coefficients are below the configured limit
+   (maxl = max_fiber_lineic_loss_for_raman in dB/m, the unit of loss_coef) *)
 Theorem C10_sel_raman_only_if_allowed : forall nd prev next bmin bmax maxl gain pt ext nf lib s red,
   NoDup (map a_name lib) -> n_variety nd = ""%string ->
   auto_select nd prev next bmin bmax maxl gain pt ext nf lib = Ok (s, red) ->
   a_raman s = true ->
-  exists lcs, prev = NFiber lcs /\ Forall (fun lc => lc < maxl * (1 # 1000)) lcs.
+  exists lcs, prev = NFiber lcs /\ Forall (fun lc => lc < maxl) lcs.
 Proof. exact sel_raman_only_if_allowed. Qed.
 Print Assumptions C10_sel_raman_only_if_allowed.
 
@@ -131,14 +132,14 @@ Proof. repeat constructor; cbn; intuition discriminate. Qed.
    ram is not allowed after a ROADM) *)
 Example ex_select_plain :
   option_map (fun sr => a_name (fst sr))
-    (match auto_select (mkNode "" []) (NRoadm [] []) NOther (191300 # 1) (196100 # 1) (1 # 4) 20 20 (5 # 2) ex_nf ex_lib
+    (match auto_select (mkNode "" []) (NRoadm [] []) NOther (191300 # 1) (196100 # 1) (1 # 4000) 20 20 (5 # 2) ex_nf ex_lib
      with Ok x => Some x | Err _ => None end) = Some "med"%string.
 Proof. vm_compute. reflexivity. Qed.
 
 (* the ROADM's booster list admits med2 and med: equal NF, the first in library order wins *)
 Example ex_select_tie :
   option_map (fun sr => a_name (fst sr))
-    (match auto_select (mkNode "" []) (NRoadm ["med2"; "med"]%string []) NOther (191300 # 1) (196100 # 1) (1 # 4) 20 20 (5 # 2) ex_nf ex_lib
+    (match auto_select (mkNode "" []) (NRoadm ["med2"; "med"]%string []) NOther (191300 # 1) (196100 # 1) (1 # 4000) 20 20 (5 # 2) ex_nf ex_lib
      with Ok x => Some x | Err _ => None end) = Some "med"%string.
 Proof. vm_compute. reflexivity. Qed.
 
@@ -146,14 +147,14 @@ Proof. vm_compute. reflexivity. Qed.
 Example ex_select_raman :
   option_map (fun sr => a_name (fst sr))
     (match auto_select (mkNode "" ["ram"; "low"]%string) (NFiber [2 # 10000]) (NRoadm [] ["high"]%string)
-                       (191300 # 1) (196100 # 1) (1 # 4) 14 18 (5 # 2) ex_nf ex_lib
+                       (191300 # 1) (196100 # 1) (1 # 4000) 14 18 (5 # 2) ex_nf ex_lib
      with Ok x => Some x | Err _ => None end) = Some "ram"%string.
 Proof. vm_compute. reflexivity. Qed.
 
 (* the hypothesis of C10_sel_capable is satisfiable *)
 Example ex_capable_hyp :
   exists a, In a ex_lib /\ permitted (mkNode "" []) (NRoadm [] []) NOther (191300 # 1) (196100 # 1) a /\
-            capable (raman_allowed (NRoadm [] []) (1 # 4)) (5 # 2) 20 20 a.
+            capable (raman_allowed (NRoadm [] []) (1 # 4000)) (5 # 2) 20 20 a.
 Proof.
   exists (exA "med" false true 15 25 21). split; [cbn; tauto |]. split.
   - unfold permitted. cbn. repeat split; try (unfold Qle; cbn; lia); try congruence.
